@@ -136,6 +136,15 @@ def main():
                     mod.run_case(ctx, v["case"])
         else:
             mod.run(ctx)
+            # a broken correspondence is not by itself a violation: search for a concrete failing input of the property
+            # (fresh generator states, same oracles) within the tier's budget before reporting no-failing-input-found
+            limit = 75 if tier == "quick" else 900
+            extra = 0
+            while rec.mismatches and not rec.violations and time.time() - t0 < limit and extra < 12:
+                extra += 1
+                ctx["rng"] = random.Random((seed + 7919 * extra) * 1000003 + int(pid[1:]))
+                rec.count("search", "extra-round")
+                mod.run(ctx)
         drv.close()
     except SystemExit:
         raise
